@@ -156,16 +156,6 @@ Lemma ends_with_sfx x sfx : ends_with (x ++ sfx) sfx = true.
 Proof.
   unfold ends_with. rewrite rev_app_distr. induction (rev sfx) as [|c l IH]; [reflexivity|]. cbn. rewrite N.eqb_refl. exact IH.
 Qed.
-Lemma no_dash_ns_id name : no_dash name = true -> no_dash (ns_id name) = true.
-Proof.
-  unfold ns_id, str_replace1, no_dash. intros H. apply forallb_flat_map. intros c. destruct (c =? 46); [reflexivity|].
-Abort.
-Lemma no_dash_ns_id name : no_dash name = true -> no_dash (ns_id name) = true.
-Proof.
-  unfold ns_id, str_replace1, no_dash. induction name as [|c r IH]; intros H; [reflexivity|]. cbn [forallb flat_map] in *.
-  apply andb_prop in H as [Hc Hr]. rewrite forallb_app, (IH Hr), andb_true_r. destruct (c =? 46); [reflexivity|]. cbn. rewrite Hc. reflexivity.
-Qed.
-
 Section IdClass.
 Variable cf : cfg.
 Hypothesis Hti : ae_ti cf = false.
@@ -173,19 +163,19 @@ Hypothesis Hni : ae_ni cf = false.
 Hypothesis Hsb : ae_sb cf = false.
 Hypothesis Hsep : nested_id_sep = s_dash_n.
 Variable up : str.
-Variable L : list str.
+Variables L LN ST : list str.
 
-Lemma class_nested st s : id_class L (snd (filter_make_unique st (s ++ nested_id_sep))) = true.
+Lemma class_nested st s : id_class L LN ST (snd (filter_make_unique st (s ++ nested_id_sep))) = true.
 Proof. unfold id_class. rewrite Hsep, make_unique_shape, !orb_true_r. reflexivity. Qed.
 
 Lemma emit_ty_attrs_ids :
   (forall t st nm nested, (nested = false -> exists c a, t = Comp c a /\ str_in (filter_tag_id (ci_t c)) L = true) ->
-                          forallb (id_class L) (ids (snd (emit_ty cf up st t nm nested))) = true)
-  /\ (forall a st, forallb (id_class L) (ids (snd (emit_attrs cf up st a))) = true).
+                          forallb (id_class L LN ST) (ids (snd (emit_ty cf up st t nm nested))) = true)
+  /\ (forall a st, forallb (id_class L LN ST) (ids (snd (emit_attrs cf up st a))) = true).
 Proof.
   apply ty_attrs_ind.
   - intros c a IHa st nm nested H. cbn [emit_ty]. cbv zeta. cbn [snd].
-    assert (Hid : id_class L (tx (ae_ti cf) (snd (if nested then filter_make_unique st (filter_tag_id (ci_t c) ++ nested_id_sep) else (st, filter_tag_id (ci_t c))))) = true).
+    assert (Hid : id_class L LN ST (tx (ae_ti cf) (snd (if nested then filter_make_unique st (filter_tag_id (ci_t c) ++ nested_id_sep) else (st, filter_tag_id (ci_t c))))) = true).
     { rewrite Hti. cbn [tx]. destruct nested; [apply class_nested|]. cbn [snd]. destruct (H eq_refl) as (c0 & a0 & E & Hin). injection E as <- _. unfold id_class. rewrite Hin. reflexivity. }
     destruct nested;
       rewrite !vals_of_app, !vals_of_elem, !vals_of_app;
@@ -200,7 +190,7 @@ Proof.
       first [ reflexivity | (destruct a; [reflexivity|exact (IHa _)|exact (IHa _)]) | idtac ].
   - intros es dep d e IHe st nm nested H. destruct nested; [|destruct (H eq_refl) as (c0 & a0 & E & _); discriminate E].
     cbn [emit_ty]. cbv zeta. cbn [snd].
-    assert (Hid : id_class L (tx (ae_ti cf) (snd (filter_make_unique st (filter_tag_id (arr_tinfo es) ++ nested_id_sep)))) = true)
+    assert (Hid : id_class L LN ST (tx (ae_ti cf) (snd (filter_make_unique st (filter_tag_id (arr_tinfo es) ++ nested_id_sep)))) = true)
       by (rewrite Hti; apply class_nested).
     rewrite !vals_of_app, !vals_of_elem, !vals_of_app.
     rewrite ids_toggle, (ids_tx_markup _ _ (ids_disp_type _)), ids_span.
@@ -224,36 +214,41 @@ Hypothesis Hni : ae_ni cf = false.
 Hypothesis Hsb : ae_sb cf = false.
 Hypothesis Hsep : nested_id_sep = s_dash_n.
 Variable up : str.
-Variable L : list str.
+Variables L LN ST : list str.
 
 Lemma emit_types_ids_class ts : forallb (fun e => is_comp (snd e)) ts = true ->
   (forall c, In c (listed ts) -> str_in (filter_tag_id (ci_t c)) L = true) ->
-  forall st, forallb (id_class L) (ids (snd (emit_types cf up st ts))) = true.
+  forall st, forallb (id_class L LN ST) (ids (snd (emit_types cf up st ts))) = true.
 Proof.
   induction ts as [|[sn t] r IH]; intros Hc HL st; [reflexivity|]. cbn [forallb snd] in Hc. apply andb_prop in Hc as [Ht Hr].
   unfold listed in HL. cbn [flat_map fst snd] in HL. fold (listed r) in HL. cbn [emit_types].
   destruct (str_eqb sn namespace_doc_key); [apply IH; assumption|]. cbv zeta. cbn [snd]. rewrite vals_of_app, forallb_app.
   apply andb_true_intro. split.
-  - apply (proj1 (emit_ty_attrs_ids cf Hti Hsep up L)). intros _. destruct t as [c a| |]; try discriminate Ht.
+  - apply (proj1 (emit_ty_attrs_ids cf Hti Hsep up L LN ST)). intros _. destruct t as [c a| |]; try discriminate Ht.
     exists c, a. split; [reflexivity|]. apply HL. apply in_or_app. left. left. reflexivity.
   - apply IH; [exact Hr|]. intros c Hc. apply HL, in_or_app. right. exact Hc.
 Qed.
 
-Lemma class_no_dash x : no_dash x = true -> id_class L x = true.
-Proof. intros H. unfold id_class. rewrite H, orb_true_r. reflexivity. Qed.
-Lemma class_sidebar x : id_class L (x ++ s_sidebar_sfx) = true.
+Lemma class_ns x : str_in x LN = true -> id_class L LN ST x = true.
+Proof. intros H. unfold id_class. rewrite H, !orb_true_r. reflexivity. Qed.
+Lemma class_static x : str_in x ST = true -> id_class L LN ST x = true.
+Proof. intros H. unfold id_class. rewrite H, !orb_true_r. reflexivity. Qed.
+Lemma class_sidebar x : id_class L LN ST (x ++ s_sidebar_sfx) = true.
 Proof. unfold id_class. rewrite ends_with_sfx, !orb_true_r. reflexivity. Qed.
 
 Lemma emit_ns_ids_class :
   (forall n st, tops_ok n = true -> (forall c, In c (all_listed n) -> str_in (filter_tag_id (ci_t c)) L = true) ->
-                forallb (id_class L) (ids (snd (emit_ns cf up st n))) = true)
+                (forall n', In n' (all_ns n) -> str_in (ns_id (ns_name n')) LN = true) ->
+                forallb (id_class L LN ST) (ids (snd (emit_ns cf up st n))) = true)
   /\ (forall l st, tops_ok_l l = true -> (forall c, In c (all_listed_l l) -> str_in (filter_tag_id (ci_t c)) L = true) ->
-                   forallb (id_class L) (ids (snd (emit_nsl cf up st l))) = true).
+                   (forall n', In n' (all_nsl l) -> str_in (ns_id (ns_name n')) LN = true) ->
+                   forallb (id_class L LN ST) (ids (snd (emit_nsl cf up st l))) = true).
 Proof.
   apply nst_nsl_ind.
-  - intros name docs types subs IH st H HL. cbn [tops_ok] in H. apply andb_prop in H as [H Hs]. apply andb_prop in H as [Hn Ht].
-    cbn [all_listed] in HL. cbn [emit_ns]. cbv zeta. cbn [snd].
-    assert (Hid : id_class L (tx (ae_ni cf) (ns_id name)) = true) by (rewrite Hni; apply class_no_dash, no_dash_ns_id, Hn).
+  - intros name docs types subs IH st H HL HN. cbn [tops_ok] in H. apply andb_prop in H as [Ht Hs].
+    cbn [all_listed] in HL. cbn [all_ns] in HN. cbn [emit_ns]. cbv zeta. cbn [snd].
+    assert (Hid : id_class L LN ST (tx (ae_ni cf) (ns_id name)) = true)
+      by (rewrite Hni; apply class_ns; apply (HN (NS name docs types subs)); left; reflexivity).
     rewrite !vals_of_app, !vals_of_elem, !vals_of_app, ids_toggle.
     change (attr_vals k_id [(k_class, s_fstitalic)]) with (@nil str).
     match goal with |- context [attr_vals k_id [(k_class, ?x); (k_id, ?y)]] => change (attr_vals k_id [(k_class, x); (k_id, y)]) with [y] end.
@@ -261,14 +256,14 @@ Proof.
     apply andb_true_intro. split; [|apply andb_true_intro; split].
     + destruct (filter_namespace_doc docs); reflexivity.
     + apply emit_types_ids_class; [exact Ht|]. intros c Hc. apply HL, in_or_app. left. exact Hc.
-    + apply IH; [exact Hs|]. intros c Hc. apply HL, in_or_app. right. exact Hc.
-  - intros st _ _. reflexivity.
-  - intros n IHn r IHr st H HL. cbn [tops_ok_l] in H. apply andb_prop in H as [Hn Hr]. cbn [all_listed_l] in HL.
+    + apply IH; [exact Hs| |]; [intros c Hc; apply HL, in_or_app; right; exact Hc|intros n' Hn'; apply HN; right; exact Hn'].
+  - intros st _ _ _. reflexivity.
+  - intros n IHn r IHr st H HL HN. cbn [tops_ok_l] in H. apply andb_prop in H as [Hn Hr]. cbn [all_listed_l] in HL. cbn [all_nsl] in HN.
     cbn [emit_nsl]. cbv zeta. cbn [snd]. rewrite vals_of_app, forallb_app. apply andb_true_intro.
-    split; [apply IHn|apply IHr]; try assumption; intros c Hc; apply HL, in_or_app; [left|right]; exact Hc.
+    split; [apply IHn|apply IHr]; try assumption; intros x Hx; (apply HL || apply HN); apply in_or_app; [left|left|right|right]; exact Hx.
 Qed.
 
-Lemma sidebar_types_ids_class ts : forallb (id_class L) (ids (sidebar_types cf ts)) = true.
+Lemma sidebar_types_ids_class ts : forallb (id_class L LN ST) (ids (sidebar_types cf ts)) = true.
 Proof.
   induction ts as [|[sn t] r IH]; [reflexivity|]. cbn [sidebar_types]. rewrite vals_of_app, forallb_app, IH, andb_true_r.
   destruct (str_eqb sn namespace_doc_key); [reflexivity|]. destruct (comp_info t) as [c|]; [|reflexivity].
@@ -280,7 +275,7 @@ Proof.
 Qed.
 
 Lemma emit_sidebar_ids_class :
-  (forall n, forallb (id_class L) (ids (emit_sidebar cf n)) = true) /\ (forall l, forallb (id_class L) (ids (emit_sidebar_l cf l)) = true).
+  (forall n, forallb (id_class L LN ST) (ids (emit_sidebar cf n)) = true) /\ (forall l, forallb (id_class L LN ST) (ids (emit_sidebar_l cf l)) = true).
 Proof.
   apply nst_nsl_ind.
   - intros name docs types subs IH. cbn [emit_sidebar]. cbv zeta.
@@ -300,21 +295,25 @@ Proof.
 Qed.
 End IdClassPage.
 
-(* every id of a namespace page is the tag id of a type listed on the page, or contains no '-' (namespace ids, static ids),
-   or ends in _sidebar, or is a nesting occurrence X-n<k> *)
+(* every id of a namespace page is the tag id of a type listed on the page, or the id of a namespace at or below the page's
+   namespace, or one of the two static ids of the modelled regions, or ends in _sidebar, or is a nesting occurrence X-n<k> *)
+Definition page_L (n : nst) : list str := map (fun c => filter_tag_id (ci_t c)) (all_listed n).
+Definition page_LN (n : nst) : list str := map (fun n' => ns_id (ns_name n')) (all_ns n).
+Definition page_ST : list str := [s_sidebar; s_nsinfo].
 Theorem page_ids_classified cf n :
   ae_ti cf = false -> ae_ni cf = false -> ae_sb cf = false -> nested_id_sep = s_dash_n -> tops_ok n = true ->
-  forallb (id_class (map (fun c => filter_tag_id (ci_t c)) (all_listed n))) (page_ids cf n) = true.
+  forallb (id_class (page_L n) (page_LN n) page_ST) (page_ids cf n) = true.
 Proof.
   intros Hti Hni Hsb Hsep Hok. unfold page_ids, ns_page, ns_page_sidebar, ns_page_main.
   rewrite !vals_of_app, !vals_of_elem, !forallb_app.
   change (attr_vals k_id [(k_id, s_sidebar)]) with [s_sidebar]. change (attr_vals k_id [(k_id, s_nsinfo)]) with [s_nsinfo].
   change (attr_vals k_id []) with (@nil str). cbn [app forallb vals_of flat_map andb].
-  rewrite (class_no_dash _ s_sidebar eq_refl), (class_no_dash _ s_nsinfo eq_refl). cbn [andb].
+  rewrite (class_static _ _ page_ST s_sidebar eq_refl), (class_static _ _ page_ST s_nsinfo eq_refl). cbn [andb].
   apply andb_true_intro. split.
-  - apply (proj1 (emit_sidebar_ids_class cf _)).
-  - apply (proj1 (emit_ns_ids_class cf Hti Hni Hsep _ _)); [exact Hok|].
-    intros c Hc. apply str_in_spec, in_map_iff. exists c. split; [reflexivity|exact Hc].
+  - apply (proj1 (emit_sidebar_ids_class cf _ _ _)).
+  - apply (proj1 (emit_ns_ids_class cf Hti Hni Hsep _ _ _ _)); [exact Hok| |].
+    + intros c Hc. apply str_in_spec, in_map_iff. exists c. split; [reflexivity|exact Hc].
+    + intros n' Hn'. apply str_in_spec, in_map_iff. exists n'. split; [reflexivity|exact Hn'].
 Qed.
 
 (* ---------- (3) a type's tag id is carried by nothing but the main element of a listed type with the same name and version ---------- *)
@@ -333,27 +332,87 @@ Proof.
   - exists d, r. split; [reflexivity|]. cbn in D. apply andb_prop in D as [D _]. exact D.
 Qed.
 
+Lemma no_dash_replace_us name : no_dash name = true -> no_dash (str_replace1 46 s_us name) = true.
+Proof.
+  unfold str_replace1, no_dash. induction name as [|c r IH]; intros H; [reflexivity|]. cbn [forallb flat_map] in *.
+  apply andb_prop in H as [Hc Hr]. rewrite forallb_app, (IH Hr), andb_true_r. destruct (c =? 46); [reflexivity|]. cbn. rewrite Hc. reflexivity.
+Qed.
+
 Theorem type_anchor_exclusive cf n t :
   tag_id_dashed = true ->
   ae_ti cf = false -> ae_ni cf = false -> ae_sb cf = false -> nested_id_sep = s_dash_n -> tops_ok n = true ->
+  (forall n', In n' (all_ns n) -> no_dash (ns_name n') = true) ->
   ti_is_array t = false -> version_ok t = true ->
   In (filter_tag_id t) (page_ids cf n) ->
   exists c, In c (all_listed n) /\ filter_tag_id (ci_t c) = filter_tag_id t.
 Proof.
-  intros Hd Hti Hni Hsb Hsep Hok Harr Hv Hin.
+  intros Hd Hti Hni Hsb Hsep Hok Hnn Harr Hv Hin.
   pose proof (page_ids_classified cf n Hti Hni Hsb Hsep Hok) as H. rewrite forallb_forall in H. specialize (H _ Hin).
   destruct (version_ok_spec _ Hv) as [[Ma _] [Mi _]].
   pose proof (tag_id_shape Hd t Harr) as Shape. unfold dash_shape in Shape.
   destruct (dec_Z_nonempty _ Mi) as (d & r & Er & Hdg).
   unfold id_class in H. rewrite Shape in H.
-  assert (N1 : no_dash ((str_replace1 46 [45] (ti_full_name t) ++ 45 :: dec_of_Z (ti_major t)) ++ 45 :: dec_of_Z (ti_minor t)) = false).
-  { unfold no_dash. rewrite forallb_app. cbn [forallb]. rewrite N.eqb_refl. cbn. apply andb_false_r. }
-  assert (N2 : ends_with ((str_replace1 46 [45] (ti_full_name t) ++ 45 :: dec_of_Z (ti_major t)) ++ 45 :: dec_of_Z (ti_minor t)) s_sidebar_sfx = false).
-  { unfold ends_with. rewrite rev_app_distr. cbn [rev]. rewrite <- app_assoc. rewrite Er. cbn [app rev s_sidebar_sfx starts_with].
+  set (X := (str_replace1 46 [45] (ti_full_name t) ++ 45 :: dec_of_Z (ti_major t)) ++ 45 :: dec_of_Z (ti_minor t)) in *.
+  assert (RX : rev X = d :: r ++ 45 :: rev (str_replace1 46 [45] (ti_full_name t) ++ 45 :: dec_of_Z (ti_major t))).
+  { unfold X. rewrite rev_app_distr. cbn [rev]. rewrite <- app_assoc, Er. reflexivity. }
+  assert (N1 : no_dash X = false).
+  { unfold X, no_dash. rewrite forallb_app. cbn [forallb]. rewrite N.eqb_refl. cbn. apply andb_false_r. }
+  assert (N2 : ends_with X s_sidebar_sfx = false).
+  { unfold ends_with. rewrite RX. cbn [rev s_sidebar_sfx app starts_with].
     unfold is_digit in Hdg. destruct (N.eqb_spec 114 d) as [<-|]; [discriminate Hdg|reflexivity]. }
-  assert (N3 : nested_shape ((str_replace1 46 [45] (ti_full_name t) ++ 45 :: dec_of_Z (ti_major t)) ++ 45 :: dec_of_Z (ti_minor t)) = false).
-  { unfold nested_shape. rewrite rev_app_distr. cbn [rev]. rewrite <- app_assoc.
+  assert (N3 : nested_shape X = false).
+  { unfold nested_shape, X. rewrite rev_app_distr. cbn [rev]. rewrite <- app_assoc.
     rewrite (drop_while_pref_all is_digit _ _ (eq_trans (forallb_rev _ _) (dec_Z_digits _ Mi))). reflexivity. }
-  rewrite N1, N2, N3, !orb_false_r in H. apply str_in_spec, in_map_iff in H. destruct H as (c & E & Hc).
+  assert (N4 : str_in X page_ST = false).
+  { destruct (str_in X page_ST) eqn:E; [|reflexivity]. apply str_in_spec in E. destruct E as [E|[E|[]]]; rewrite <- E in N1; discriminate N1. }
+  assert (N5 : str_in X (page_LN n) = false).
+  { destruct (str_in X (page_LN n)) eqn:E; [|reflexivity]. exfalso. apply str_in_spec, in_map_iff in E. destruct E as (n' & E & Hn').
+    unfold ns_id in E. destruct ns_ids_dashed.
+    - apply (f_equal (@rev N)) in E. rewrite RX, rev_app_distr in E. cbn [rev s_ddns app] in E. injection E as E _. subst d. discriminate Hdg.
+    - rewrite <- E, (no_dash_replace_us _ (Hnn _ Hn')) in N1. discriminate N1. }
+  rewrite N2, N3, N4, N5, !orb_false_r in H. apply str_in_spec, in_map_iff in H. destruct H as (c & E & Hc).
   exists c. split; [exact Hc|]. rewrite E, Shape. reflexivity.
 Qed.
+
+(* ---------- (4) the kind of an id can be read off its end: the classes are pairwise disjoint ---------- *)
+Lemma kind_sidebar x : id_kind (x ++ s_sidebar_sfx) = 3.
+Proof. unfold id_kind. rewrite ends_with_sfx. reflexivity. Qed.
+
+Lemma kind_type t : tag_id_dashed = true -> ti_is_array t = false -> version_ok t = true -> id_kind (filter_tag_id t) = 1.
+Proof.
+  intros Hd Harr Hv. destruct (version_ok_spec _ Hv) as [[Ma _] [Mi _]]. rewrite (tag_id_shape Hd t Harr). unfold dash_shape.
+  destruct (dec_Z_nonempty _ Mi) as (d & r & Er & Hdg).
+  set (X := (str_replace1 46 [45] (ti_full_name t) ++ 45 :: dec_of_Z (ti_major t)) ++ 45 :: dec_of_Z (ti_minor t)).
+  assert (RX : rev X = d :: r ++ 45 :: rev (str_replace1 46 [45] (ti_full_name t) ++ 45 :: dec_of_Z (ti_major t))).
+  { unfold X. rewrite rev_app_distr. cbn [rev]. rewrite <- app_assoc, Er. reflexivity. }
+  assert (N3 : nested_shape X = false).
+  { unfold nested_shape, X. rewrite rev_app_distr. cbn [rev]. rewrite <- app_assoc.
+    rewrite (drop_while_pref_all is_digit _ _ (eq_trans (forallb_rev _ _) (dec_Z_digits _ Mi))). reflexivity. }
+  unfold id_kind, ends_with, last_is_digit. rewrite N3, RX. cbn [rev s_sidebar_sfx s_ddns app starts_with].
+  pose proof Hdg as Hdg'. unfold is_digit in Hdg'.
+  destruct (N.eqb_spec 114 d) as [<-|]; [discriminate Hdg'|]. destruct (N.eqb_spec 115 d) as [<-|]; [discriminate Hdg'|]. cbn [andb].
+  rewrite Hdg. reflexivity.
+Qed.
+
+Lemma kind_ns name : ns_ids_dashed = true -> id_kind (ns_id name) = 2.
+Proof.
+  intros Hd. unfold ns_id. rewrite Hd. unfold id_kind. rewrite ends_with_sfx.
+  unfold ends_with. rewrite rev_app_distr. reflexivity.
+Qed.
+
+(* namespace ids of the '-' scheme are injective on dash-free names *)
+Theorem ns_id_injective : ns_ids_dashed = true -> forall a b, no_dash a = true -> no_dash b = true -> ns_id a = ns_id b -> a = b.
+Proof.
+  intros Hd a b Ha Hb E. unfold ns_id in E. rewrite Hd in E. apply app_inv_tail in E. apply replace_dot_dash_inj; assumption.
+Qed.
+
+(* namespace ids by state: '_'-joined components collide (a.b_c / a.b.c: finding F-HTML-NS-ID-COLLISION), the '-' scheme does not *)
+Theorem ns_ids_by_state : nodup_str (page_ids faithful_cfg w_site_nsdup) = ns_ids_dashed.
+Proof. vm_compute. reflexivity. Qed.
+
+(* hypothesis-free versions for the landed id scheme *)
+Theorem id_scheme_now : tag_id_dashed = true /\ nested_id_sep = s_dash_n.
+Proof. vm_compute. split; reflexivity. Qed.
+
+Theorem ns_scheme_now : ns_ids_dashed = true.
+Proof. vm_compute. reflexivity. Qed.
